@@ -422,6 +422,8 @@ def gen_class_spec(src, profile=None):
             sub["mixin_first"] = True  # class Sub(Mixin, Host)
         if p["allow_new_shapes"] and src.chance(0.35):
             sub["own_new"] = True  # the subclass has a cooperative __new__ of its own (calls super().__new__(cls))
+            if src.chance(0.3):
+                sub["own_new"] = "direct"  # ... or one that allocates with object.__new__(cls) and never reaches the parents'
         elif p["allow_new_shapes"] and host.get("new_shape") in (None, "mixin") and src.chance(0.3):
             # class Sub(Host, LateNew): instance creation comes from a base that stands AFTER the (lazily bootstrapped)
             # parent in the subclass's MRO, the parent itself having no __new__ anywhere above it
@@ -626,10 +628,13 @@ def bad_values(kind):
         return [["dict", [["a", 3]]], ["dict", [[1, ["kitem", {"k": "a"}]]]], 5]
     if kind == "klist":
         return [["list", [["kitem", {"k": "a"}], 3]], 5, ["list", [["kitem", {"k": "a"}], ["kitem", {"k": "a"}]]],
-                ["klist_any", [["kitem", {"k": "a"}], 3]], ["klist_any", ["zz"]], ["klist_any", [["leaf", {"p": 1, "q": "u"}]]]]
+                ["klist_any", [["kitem", {"k": "a"}], 3]], ["klist_any", ["zz"]], ["klist_any", [["leaf", {"p": 1, "q": "u"}]]],
+                # conforming items under keys of the wrong type (the container's own key function yields ints)
+                ["klist_intkey", [["kitem", {"k": "a"}], ["kitem", {"k": "b"}]]], ["klist_intkey", [["kitem", {"k": "c", "v": 1}]]]]
     if kind == "kset":
         return [["list", [["kitem", {"k": "a"}], 3]], 5,
-                ["kset_any", [["kitem", {"k": "a"}], 3]], ["kset_any", ["zz"]], ["kset_any", [["leaf", {"p": 1, "q": "u"}]]]]
+                ["kset_any", [["kitem", {"k": "a"}], 3]], ["kset_any", ["zz"]], ["kset_any", [["leaf", {"p": 1, "q": "u"}]]],
+                ["kset_intkey", [["kitem", {"k": "a"}], ["kitem", {"k": "b"}]]]]
     raise HarnessError(f"unknown kind {kind}")
 
 
@@ -772,6 +777,10 @@ def build_value(v, classes, faults=None):
     if tag == "kset_any":
         _, _, KeyedSet, _, _ = _lib()
         return KeyedSet([b(x) for x in payload])
+    if tag in ("klist_intkey", "kset_intkey"):
+        _, KeyedList, KeyedSet, _, _ = _lib()
+        C = KeyedList if tag == "klist_intkey" else KeyedSet
+        return C([b(x) for x in payload], key=lambda item: sum(map(ord, item.k)) * 10 + len(item.k))
     if tag in ("klist_fn", "kset_fn"):
         # the container comes with a key function of the user's own (same keys as the default one: what differs is that
         # it is a user callback, which may raise)
